@@ -300,3 +300,11 @@ package syntax
 //@   modifies c.sub
 //@   ensures c.sub == sub
 //@   ensures[meaning] forall ch rune :: Member(*c, ch) == (old(BaseMember(*c, ch)) && !(sub != nil && MemberP(sub, ch)))
+
+// Whether a program contains the \G opcode (walks the opcode stream; trusted, the opcode stream's shape is the writer's invariant)
+//@ ghost func UsesStart(c *Code) bool
+//@ func (c *Code) UsesStartAnchor() (b bool)
+//@   trusted opcode-stream walk; relies on the writer emitting well-formed instruction sizes
+//@   pure
+//@   requires c != nil
+//@   ensures b == UsesStart(c)
